@@ -374,6 +374,13 @@ func init() {
 			}
 			emit(1705, TI(65535), TI(0))
 			emit(1705, TI(0), TI(65535))
+			// abs-capture-time offsets at the values a "no information" shortcut would treat specially:
+			// a present offset is 16 bytes on the wire whatever its value, zero included
+			for _, off := range []int64{0, 1, -1, 1 << 32, -(1 << 32), 1<<63 - 1, -(1 << 63)} {
+				emit(1709, TU(0), TI(off))
+				emit(1709, TU(1<<63), TI(off))
+			}
+			emit(1709, TU(0), TNil{})
 			for l := 0; l <= 18; l++ {
 				off := int64(-5)
 				emit(1710, TU(99), TNil{}, TB(r.Bytes(l)))
@@ -400,7 +407,7 @@ func init() {
 					if c.Bool() {
 						emit(1709, TU(c.U64()), TNil{})
 					} else {
-						emit(1709, TU(c.U64()), TI(int64(c.U64())))
+						emit(1709, TU(c.U64()), TI(int64(c.Pick(0, 1, -1)*c.Intn(2))+int64(c.U64())*int64(c.Intn(2))))
 					}
 				default:
 					var prevOff Tok = TNil{}
